@@ -877,7 +877,7 @@ func ruleRangeMergeIsUnion(w *core.World, r *core.Report) {
 		return
 	}
 	n := 0
-	for _, in := range core.OwnInstrs(f) {
+	for _, in := range core.Instrs(f) {
 		st, ok := in.(*ssa.Store)
 		if !ok {
 			continue
